@@ -361,6 +361,29 @@ theorem mem_poll_removed {fin : List Nat} {t : Table} {j' : Job} (h : j' ∈ (po
       · obtain ⟨j, hj, e⟩ := ih h; exact ⟨j, List.mem_cons_of_mem _ hj, e⟩
     · obtain ⟨j, hj, e⟩ := ih h; exact ⟨j, List.mem_cons_of_mem _ hj, e⟩
 
+/-- a job kept by `poll` is not done and still has a task -/
+theorem mem_poll_kept {fin : List Nat} {t : Table} {j' : Job} (h : j' ∈ (poll fin t).1) :
+    j'.state ≠ .done ∧ j'.tasks ≠ [] := by
+  induction t with
+  | nil => simp [poll] at h
+  | cons a as ih =>
+    simp only [poll] at h
+    split at h
+    · exact ih h
+    · rename_i hc
+      rcases List.mem_cons.mp h with rfl | h
+      · have hc' : (pollDone fin a).2 = false ∧ ¬ (pollDone fin a).1.state = .done := by simpa using hc
+        refine ⟨hc'.2, ?_⟩
+        intro he
+        apply hc'.2
+        unfold pollDone at he ⊢
+        by_cases hr : (a.tasks.dropWhile (fun k => fin.contains k)).isEmpty = true
+        · simp only [hr, if_true]
+        · simp only [hr] at he
+          have he' : a.tasks.dropWhile (fun k => fin.contains k) = [] := he
+          exact absurd (by rw [he']; rfl) hr
+      · exact ih h
+
 theorem map_set_cleared {α : Type} (f : Job → α) (hf : ∀ j, f (cleared j) = f j) {t : Table} {i : Nat} {j : Job}
     (h : t[i]? = some j) : (t.set i (cleared j)).map f = t.map f := by
   apply List.ext_getElem?
@@ -380,21 +403,27 @@ theorem map_set_cleared {α : Type} (f : Job → α) (hf : ∀ j, f (cleared j) 
 
 /-- `StepRel s polled s'`: how one operation can change the state (`polled` = it was a poll) -/
 inductive StepRel (s : St) : Bool → St → Prop where
-  | same : StepRel s false s
-  | blocked : StepRel s false { s with stuck := true }
-  | launch (n : Nat) (st : JState) (hst : st ≠ .done) :
-      StepRel s false { s with table := addAsCurrent s.rule s.table (List.range' s.nextTask n) (s.launched + 1) st,
+  | same {b : Bool} : StepRel s b s
+  | blocked {b : Bool} : StepRel s b { s with stuck := true }
+  | launch (n : Nat) (st : JState) (code : Nat) (hst : st ≠ .done) :
+      StepRel s false { s with table := addAsCurrent s.rule s.table (List.range' s.nextTask n) (s.launched + 1) st code,
                                nextTask := s.nextTask + n, launched := s.launched + 1 }
   | completes (fin' : List Nat) (hsub : ∀ x ∈ s.fin, x ∈ fin') : StepRel s false { s with fin := fin' }
   | poll : StepRel s true { s with table := (poll s.fin s.table).1, gone := s.gone ++ (poll s.fin s.table).2 }
   | waitAll (fin' : List Nat) (hsub : ∀ x ∈ s.fin, x ∈ fin') (hall : ∀ j ∈ s.table, ∀ k ∈ j.tasks, k ∈ fin') :
-      StepRel s false { s with table := [], gone := s.gone ++ s.table.map cleared, fin := fin' }
-  | waitSpec (i : Nat) (j : Job) (fin' : List Nat) (hi : s.table[i]? = some j) (hsub : ∀ x ∈ s.fin, x ∈ fin')
+      StepRel s false { s with table := [], gone := s.gone ++ s.table.map cleared, fin := fin', lastWait := 0 }
+  | waitSpec (i : Nat) (j : Job) (fin' : List Nat) (lw : Nat) (hi : s.table[i]? = some j) (hsub : ∀ x ∈ s.fin, x ∈ fin')
       (hall : ∀ k ∈ j.tasks, k ∈ fin') :
-      StepRel s false { s with table := s.table.set i (cleared j), fin := fin' }
+      StepRel s true { s with table := (sweep (s.table.set i (cleared j))).1,
+                              gone := s.gone ++ (sweep (s.table.set i (cleared j))).2, fin := fin', lastWait := lw }
+  | sweepOnly (fin' : List Nat) (lw : Nat) (hsub : ∀ x ∈ s.fin, x ∈ fin') :
+      StepRel s true { s with table := (sweep s.table).1, gone := s.gone ++ (sweep s.table).2, fin := fin', lastWait := lw }
 
+/-- operations that remove finished jobs one by one, leaving the others in the table: the poll between
+commands and `wait %spec` (plain `wait` empties the table) -/
 def isPoll : Op → Bool
   | .poll => true
+  | .waitSpec _ _ => true
   | _ => false
 
 theorem step_rel (s : St) (op : Op) : StepRel s (isPoll op && !s.stuck) (step s op) := by
@@ -404,9 +433,9 @@ theorem step_rel (s : St) (op : Op) : StepRel s (isPoll op && !s.stuck) (step s 
   · rename_i hs
     have hs' : s.stuck = false := by simpa using hs
     cases op with
-    | launch n stopped =>
+    | launch n stopped code =>
       simp only [isPoll, Bool.false_and]
-      exact .launch n _ (by split <;> simp)
+      exact .launch n _ code (by split <;> simp)
     | finish k =>
       simp only [isPoll, Bool.false_and]
       split
@@ -432,9 +461,10 @@ theorem step_rel (s : St) (op : Op) : StepRel s (isPoll op && !s.stuck) (step s 
           · intro x hx; rw [a2]; exact List.mem_append_right _ (List.mem_append_right _ hx)
           · intro j hj k hk; exact List.mem_append_right _ (a3 j hj k hk)
     | waitSpec sp sched =>
-      simp only [isPoll, Bool.false_and]
+      have hb : (isPoll (Op.waitSpec sp sched) && !s.stuck) = true := by simp [isPoll, hs']
+      dsimp only
       split
-      · exact .completes _ (fun x hx => List.mem_append_right _ hx)
+      · rw [hb]; exact .sweepOnly _ _ (fun x hx => List.mem_append_right _ hx)
       next i _ =>
         split
         · exact .same
@@ -443,8 +473,8 @@ theorem step_rel (s : St) (op : Op) : StepRel s (isPoll op && !s.stuck) (step s 
           · exact .blocked
           next r hr =>
             obtain ⟨e, taken, a1, a2, a3⟩ := jobWait_some (j' := r.1) (fin' := r.2.1) (sched' := r.2.2) hr
-            rw [e]
-            refine .waitSpec i j _ hj ?_ ?_
+            rw [e, hb]
+            refine .waitSpec i j _ _ hj ?_ ?_
             · intro x hx; rw [a2]; exact List.mem_append_right _ (List.mem_append_right _ hx)
             · intro k hk; exact List.mem_append_right _ (a3 k hk)
     | query => simp only [isPoll, Bool.false_and]; exact .same
@@ -477,21 +507,47 @@ theorem le_maxId {t : Table} {j : Job} (h : j ∈ t) : j.id ≤ maxId t := by
     · omega
     · have := ih h; omega
 
-theorem ids_add (r : IdRule) (t : Table) (ts : List Nat) (tag : Nat) (st : JState) :
-    ids (addAsCurrent r t ts tag st) = ids t ++ [nextId r t] := by
+theorem ids_add (r : IdRule) (t : Table) (ts : List Nat) (tag : Nat) (st : JState) (code : Nat) :
+    ids (addAsCurrent r t ts tag st code) = ids t ++ [nextId r t] := by
   have := demote_ids t
   simp only [ids] at this
   simp [addAsCurrent, ids, this]
 
-theorem tags_add (r : IdRule) (t : Table) (ts : List Nat) (tag : Nat) (st : JState) :
-    tags (addAsCurrent r t ts tag st) = tags t ++ [tag] := by
+theorem tags_add (r : IdRule) (t : Table) (ts : List Nat) (tag : Nat) (st : JState) (code : Nat) :
+    tags (addAsCurrent r t ts tag st code) = tags t ++ [tag] := by
   have := demote_tags t
   simp only [tags] at this
   simp [addAsCurrent, tags, this]
 
-theorem add_length (r : IdRule) (t : Table) (ts : List Nat) (tag : Nat) (st : JState) :
-    (addAsCurrent r t ts tag st).length = t.length + 1 := by
+theorem add_length (r : IdRule) (t : Table) (ts : List Nat) (tag : Nat) (st : JState) (code : Nat) :
+    (addAsCurrent r t ts tag st code).length = t.length + 1 := by
   simp [addAsCurrent, demote_length]
+
+/-! ## `sweep_completed_jobs` -/
+
+theorem sweep_kept_sublist (t : Table) : (sweep t).1.Sublist t := by
+  simp only [sweep]; exact List.filter_sublist
+
+theorem mem_sweep_kept {t : Table} {j : Job} (h : j ∈ (sweep t).1) : j ∈ t ∧ j.tasks ≠ [] := by
+  simp only [sweep, List.mem_filter] at h
+  exact ⟨h.1, by simpa using h.2⟩
+
+theorem mem_sweep_swept {t : Table} {j : Job} (h : j ∈ (sweep t).2) : j ∈ t ∧ j.tasks = [] := by
+  simp only [sweep, List.mem_filter] at h
+  exact ⟨h.1, by simpa using h.2⟩
+
+theorem sweep_count {α : Type} [BEq α] [LawfulBEq α] (f : Job → α) (t : Table) (a : α) :
+    ((sweep t).1.map f).count a + ((sweep t).2.map f).count a = (t.map f).count a := by
+  induction t with
+  | nil => simp [sweep]
+  | cons j js ih =>
+    simp only [sweep] at ih ⊢
+    by_cases h : j.tasks.isEmpty = true
+    · simp only [List.filter_cons, h, Bool.not_true, Bool.false_eq_true, if_false, if_true, List.map_cons, List.count_cons]
+      rw [← ih]; omega
+    · have h' : j.tasks.isEmpty = false := by simpa using h
+      simp only [List.filter_cons, h', Bool.not_false, Bool.false_eq_true, if_false, if_true, List.map_cons, List.count_cons]
+      rw [← ih]; omega
 
 /-! ## accounting: nothing is lost, nothing is removed early -/
 
@@ -506,12 +562,36 @@ structure Acct (s : St) : Prop where
 theorem acc_init (r : IdRule) : Acct (init r) :=
   ⟨by simp [init, tags], by simp [init], by simp [init], by simp [init]⟩
 
+/-- sweeping keeps the accounts: the swept jobs have no task left -/
+theorem acct_sweep {s : St} (fin' : List Nat) (lw : Nat) (t : Table)
+    (hA : Acct { s with table := t, fin := fin' }) :
+    Acct { s with table := (sweep t).1, gone := s.gone ++ (sweep t).2, fin := fin', lastWait := lw } := by
+  obtain ⟨h1, h2, h3, h4⟩ := hA
+  refine ⟨?_, ?_, ?_, ?_⟩
+  · intro a
+    have := sweep_count (·.tag) t a
+    have h1a := h1 a
+    simp only [tags, List.map_append, List.count_append] at h1a this ⊢
+    omega
+  · intro j hj k hk
+    rcases hj with h | h
+    · exact h2 j (Or.inl (mem_sweep_kept h).1) k hk
+    · rcases List.mem_append.mp h with h | h
+      · exact h2 j (Or.inr h) k hk
+      · exact h2 j (Or.inl (mem_sweep_swept h).1) k hk
+  · intro j hj hd
+    exact h3 j (mem_sweep_kept hj).1 hd
+  · intro j hj
+    rcases List.mem_append.mp hj with h | h
+    · exact h4 j h
+    · exact (mem_sweep_swept h).2
+
 theorem acc_step {s s' : St} {b : Bool} (h : StepRel s b s') (hi : Acct s) : Acct s' := by
   obtain ⟨h1, h2, h3, h4⟩ := hi
   cases h with
   | same => exact ⟨h1, h2, h3, h4⟩
   | blocked => exact ⟨h1, h2, h3, h4⟩
-  | launch n st hst =>
+  | launch n st code hst =>
     refine ⟨?_, ?_, ?_, h4⟩
     · intro a
       have := h1 a
@@ -599,8 +679,16 @@ theorem acc_step {s s' : St} {b : Bool} (h : StepRel s b s') (hi : Acct s) : Acc
       rcases List.mem_append.mp hj' with h | h
       · exact h4 j' h
       · obtain ⟨j, _, rfl⟩ := List.mem_map.mp h; rfl
-  | waitSpec i j fin' hi hsub hall =>
+  | sweepOnly fin' lw hsub =>
+    apply acct_sweep fin' lw s.table
+    refine ⟨h1, ?_, h3, h4⟩
+    intro j hj k hk
+    rcases h2 j hj k hk with h | h
+    · exact Or.inl h
+    · exact Or.inr (hsub k h)
+  | waitSpec i j fin' lw hi hsub hall =>
     have hjm : j ∈ s.table := List.mem_of_getElem? hi
+    apply acct_sweep fin' lw (s.table.set i (cleared j))
     refine ⟨?_, ?_, ?_, h4⟩
     · intro a
       have := map_set_cleared (·.tag) (fun _ => rfl) hi
